@@ -548,7 +548,7 @@ CHUNK = 200
 def render_rows(rows, modname, tablename, pred="rowOk"):
     """rows: list of distinct canonical rows -> dict filename -> content. One file per 4 chunks keeps every file fast."""
     files = {}
-    per_file = 4 * CHUNK
+    per_file = 2 * CHUNK
     nfiles = max(1, (len(rows) + per_file - 1) // per_file)
     imports = []
     for fno in range(nfiles):
